@@ -54,6 +54,7 @@ def run(ck):
             from rules import C09
             C09.wrapper_rules(ck, F, rids={"R0": "C05.R7", "R1": "C05.R7", "R2": "C05.R7", "R3": "C05.R7"}, traits=["tracing_core::collect::Collect"],
                               only={"new_span", "clone_span", "try_close", "drop_span", "enter", "exit"})
+            C09.dispatch_forwarding(ck, F, rid="C05.R7", only={"new_span", "clone_span", "try_close", "drop_span", "enter", "exit"})
             # a layer behind reload::Subscriber gets its on_close (and everything else) only if the wrapper waits for its lock
             from rules import C12
             C12.r3(ck, F, rid="C05.R8")
